@@ -97,6 +97,7 @@ _STR, _VEC, _BV, _LST = ["S0", "S5", "SU", '(make-string 3 #\\x1F600)'], ["V0", 
 RANGE_PROCS = {"substring": _STR, "string-copy": _STR, "string->list": _STR, "string->vector": _STR, "string->utf8": _STR, "string-fill!": _STR, "string-copy!": _STR,
                "write-string": _STR, "vector->list": _VEC, "vector-copy": _VEC, "vector-fill!": _VEC, "vector->string": _VEC, "vector-copy!": _VEC,
                "bytevector-copy": _BV, "utf8->string": _BV, "write-bytevector": _BV, "bytevector-copy!": _BV, "list-tail": _LST, "list-ref": _LST, "list-copy": _LST}
+ARITH_PROCS = ["+", "-", "*", "/", "quotient", "remainder", "modulo", "gcd", "lcm", "abs", "square", "max", "min", "=", "<", "exact-integer-sqrt", "number->string", "floor/", "truncate/"]
 NUMERIC_PROCS = set(PROCS[:PROCS.index("not")])
 NUM_ARGS = ARGS[:ARGS.index("#t")]
 CYCLIC_ARGS = {"CYC"}
@@ -124,7 +125,24 @@ NESTED = [
 
 
 def gen_form(rng, light=False):
-    k = rng.weighted([("hostile", 10), ("benign", 3), ("nested", 1), ("literal-mutation", 1), ("long-token", 1)])
+    k = rng.weighted([("hostile", 10), ("benign", 3), ("nested", 1), ("literal-mutation", 1), ("long-token", 1), ("limb-arith", 1)])
+    if k == "limb-arith":
+        # integer arithmetic whose operands and results sit at the edges of the bignum limb arrays: +-(2^(64k) - d) built by
+        # arithmetic (exactly full limb arrays; literals of the same value carry a spare limb) combined with small operands
+        kk = rng.choice([1, 1, 2, 3])
+        d = rng.choice([0, 1, 1, 2, 3, 255])
+        big = {1: "(* 4294967295 4294967297)", 2: "(- (* 18446744073709551616 18446744073709551616) 1)",
+               3: "(- (* 18446744073709551616 (* 18446744073709551616 18446744073709551616)) 1)"}[kk]      # 2^(64k) - 1
+        a = big if d == 1 else "(- %s %d)" % (big, d - 1) if d > 1 else "(+ %s 1)" % big
+        if rng.chance(1, 3):
+            a = "(- %s)" % a
+        b = rng.choice(["1", "2", "3", "255", "256", "-1", "-2", "-255", "4611686018427387903", "-4611686018427387904", a])
+        op = rng.choice(["+", "+", "-", "-", "*", "quotient", "remainder", "gcd", "max", "exact-integer-sqrt", "number->string", "square", "abs", "="])
+        args = [a] if op in ("exact-integer-sqrt", "number->string", "square", "abs") else rng.choice([[a, b], [b, a], [a, b, b]])
+        src = "(%s %s)" % (op, " ".join(args))
+        if rng.chance(1, 4):
+            src = "(apply %s (list %s))" % (op, " ".join(args))
+        return {"src": src, "kind": "limb-arith"}
     if k == "long-token":
         # source text whose tokens cross the reader's internal buffer sizes (128 * 2^k): plain characters followed by / mixed with
         # runs of hex escapes of characters of every UTF-8 width, in string and |symbol| literals, plus long numbers and identifiers
@@ -156,7 +174,8 @@ def gen_form(rng, light=False):
             src = "(symbol? 'a%s)" % "".join(rng.choice("abc-!?*<>=/+0") for _ in range(edge))
         return {"src": src, "kind": "long-token"}
     if k == "hostile":
-        proc = rng.choice(PROCS) if not rng.chance(1, 6) else rng.choice(sorted(RANGE_PROCS))
+        boost = rng.below(12)
+        proc = rng.choice(sorted(RANGE_PROCS)) if boost < 2 else (rng.choice(ARITH_PROCS) if boost == 2 else rng.choice(PROCS))
         nargs = rng.weighted([(0, 1), (1, 5), (2, 6), (3, 4), (4, 1)])
         args = [rng.choice(ARGS) for _ in range(nargs)]
         if proc in RANGE_PROCS and rng.chance(1, 2):
@@ -318,7 +337,7 @@ def execute(case, run):
     oc.result = res
     oc.trace = res.get("ev_hash", "") or res.get("status", "")
     V = oc.verdicts
-    has_cyclic = any(f.get("cyclic") for f in case["forms"])
+    has_cyclic = any(f.get("cyclic") or any(c in f["src"] for c in CYCLIC_ARGS) for f in case["forms"])
     if res.get("status") in ("budget", "timeout") or any(v.get("class") == "budget" for v in res.get("violations", []) or []):
         # (a cyclic object that ends up as the payload of an uncaught condition is also written out by the harness itself)
         if has_cyclic or case.get("corrupt"):
